@@ -76,6 +76,7 @@ Verdict(r) ==
   ELSE
   LET ks == UNION {KeysFor(B, r) : B \in Backends}
         \cup (IF r.obs.r.eq_after THEN {} ELSE {"C02/all/rendering_modified_the_statement"})
+        \cup (IF r.stmt.kind = "with" \/ CallsOk(r.stmt) THEN {} ELSE {"!case_error/method_annotation_contradicts_stmt_methods_json"})
   IN [id |-> r.id, keys |-> ks \ {"?unsupported"},
       skipped |-> Cardinality({B \in Backends : KeysFor(B, r) = {"?unsupported"}}),
       exact |-> \A B \in Backends : Exact(B, r),
